@@ -44,15 +44,39 @@ let string_of_res pr = function
   | OutOfFuel -> "FUEL"
   | Unmodelled -> "UNMODELLED"
 
+(* ---- disk ---- *)
+let dfile_of_string s = match split ',' s with
+  | [n; x; t; a; l; e; dat] ->
+      { d_name = unhex n; d_ext = unhex x; d_type = nint t; d_ascii = nint a; d_load = nint l; d_exec = nint e; d_data = unhex dat }
+  | _ -> failwith ("bad dfile: " ^ s)
+let dfiles_of_string s = if s = "-" then [] else List.map dfile_of_string (List.filter (fun x -> x <> "") (split ';' s))
+let string_of_dfile f =
+  Printf.sprintf "%s,%s,%d,%d,%d,%d,%s" (hex_or_dash f.d_name) (hex_or_dash f.d_ext) (int_of_n f.d_type) (int_of_n f.d_ascii)
+    (int_of_n f.d_load) (int_of_n f.d_exec) (hex_or_dash f.d_data)
+let string_of_dfiles fs = match fs with [] -> "-" | _ -> String.concat ";" (List.map string_of_dfile fs)
+let order_of_string s = List.map nint (split ',' s)
+let string_of_state st =
+  String.concat "|" (List.map (fun (_, gs) -> String.concat "," (List.map (fun g -> string_of_int (int_of_n g)) gs)) st)
+
 let handle line =
   match split ' ' line with
-  | ["caswrite"; fs] -> hex_or_dash (Model.write (cfiles_of_string fs))
+  | ["caswrite"; fs] -> hex_or_dash (Model.x_cas_write (cfiles_of_string fs))
   | ["casparse"; bs] ->
-      (match Model.parse (unhex bs) with
+      (match Model.x_cas_parse (unhex bs) with
        | None -> "NONE"
        | Some l -> "SOME " ^ (match l with [] -> "-" | _ ->
            String.concat ";" (List.map (fun (f, g) -> string_of_cfile f ^ "," ^ string_of_int (int_of_n g)) l)))
-  | ["caslist"; bs] -> string_of_res string_of_cfiles (Model.list_files (unhex bs))
+  | ["caslist"; bs] -> string_of_res string_of_cfiles (Model.x_cas_list (unhex bs))
+  | ["dskadd"; order; fs] ->
+      string_of_res (fun st -> string_of_state st ^ " " ^ hex_of_bytes (Model.x_dsk_image st))
+        (Model.x_dsk_add (order_of_string order) [] (dfiles_of_string fs))
+  | ["dskchains"; order; fs] ->
+      string_of_res string_of_state (Model.x_dsk_add (order_of_string order) [] (dfiles_of_string fs))
+  | ["dskfsck"; bs] -> if Model.x_dsk_fsck (unhex bs) then "TRUE" else "FALSE"
+  | ["dskfiles"; bs] -> (match Model.x_dsk_files (unhex bs) with None -> "NONE" | Some l -> "SOME " ^ string_of_dfiles l)
+  | ["dsklist"; bs] -> string_of_res string_of_dfiles (Model.x_dsk_list (unhex bs))
+  | ["dskfree"; bs] -> string_of_int (int_of_nat (Model.x_dsk_free (unhex bs)))
+  | ["dsklayout"] -> if Model.x_dsk_layout_ok then "TRUE" else "FALSE"
   | _ -> "ERROR unknown command"
 
 let () =
